@@ -55,7 +55,12 @@ retry:
 		}
 	}
 
+	// the arbitrary data transaction added above counts towards the block
+	// weight as well
 	var weight uint64
+	for _, txn := range b.V2Transactions() {
+		weight += cs.V2TransactionWeight(txn)
+	}
 	for _, txn := range txns {
 		if weight += cs.TransactionWeight(txn); weight > cs.MaxBlockWeight() {
 			break
